@@ -15,42 +15,67 @@ Section Inv.
   Variable U : list ty.     (* all container sub-types used in the process *)
   Hypothesis HU : forall u1 u2, In u1 U -> In u2 U -> ty_eqv u1 u2 = true -> u1 = u2.
 
-  Lemma resolve_id : forall t c,
-    (forall x, In x c -> In x U) -> (forall u, In u (csub t) -> In u U) ->
-    exists c', resolve c t = (c', t) /\ (forall x, In x c' -> In x U).
+  Definition inv (s : cstate) : Prop :=
+    (forall x, In x (cL s) -> In x U) /\ (forall x, In x (cD s) -> In x U).
+
+  Lemma inv_addL : forall r s, In r U -> inv s -> inv (addL r s).
   Proof.
-    induction t as [| | | | |e IHe|e IHe|n fs|d vs]; intros c Hc Ht;
-      try (exists c; split; [reflexivity|exact Hc]).
-    - simpl. destruct (lookup_eqv (TList e) c) as [t0|] eqn:El.
-      + destruct (lookup_eqv_some _ _ _ El) as [Hin Heq].
-        assert (Hsame : TList e = t0).
-        { apply HU; [apply Ht; left; reflexivity|apply Hc; exact Hin|exact Heq]. }
-        subst t0. exists c. split; [reflexivity|exact Hc].
-      + destruct (IHe c Hc) as [c1 [Hr Hc1]].
-        { intros u Hu. apply Ht. right. exact Hu. }
-        rewrite Hr. exists (TList e :: c1). split; [reflexivity|].
-        intros x [Hx|Hx]; [subst x; apply Ht; left; reflexivity|apply Hc1; exact Hx].
-    - simpl. destruct (lookup_eqv (TMap e) c) as [t0|] eqn:El.
-      + destruct (lookup_eqv_some _ _ _ El) as [Hin Heq].
-        assert (Hsame : TMap e = t0).
-        { apply HU; [apply Ht; left; reflexivity|apply Hc; exact Hin|exact Heq]. }
-        subst t0. exists c. split; [reflexivity|exact Hc].
-      + destruct (IHe c Hc) as [c1 [Hr Hc1]].
-        { intros u Hu. apply Ht. right. exact Hu. }
-        rewrite Hr. exists (TMap e :: c1). split; [reflexivity|].
-        intros x [Hx|Hx]; [subst x; apply Ht; left; reflexivity|apply Hc1; exact Hx].
+    intros r s Hr [H1 H2]. split; simpl; [|exact H2].
+    intros x [Hx|Hx]; [subst; exact Hr|apply H1; exact Hx].
   Qed.
 
-  Lemma run_free : forall rqs c,
-    (forall x, In x c -> In x U) ->
-    (forall rq u, In rq rqs -> In u (csub (fst rq)) -> In u U) ->
-    run c rqs = map (fun rq => structure (fst rq) (snd rq)) rqs.
+  Lemma hit_same : forall t c t0, (forall x, In x c -> In x U) -> In t U ->
+    lookup_eqv t c = Some t0 -> t0 = t.
   Proof.
-    induction rqs as [|rq rqs IH]; intros c Hc Hr; simpl.
+    intros t c t0 Hc Ht Hl. destruct (lookup_eqv_some _ _ _ Hl) as [Hin Heq].
+    symmetry. apply HU; [exact Ht|apply Hc; exact Hin|exact Heq].
+  Qed.
+
+  Lemma disp_id : forall t cached s,
+    inv s -> (forall u, In u (csub t) -> In u U) ->
+    exists s', disp cached s t = (s', t) /\ inv s'.
+  Proof.
+    induction t as [| | | | |e IHe|e IHe|n fs|d vs]; intros cached s Hs Ht;
+      try (exists s; split; [reflexivity|exact Hs]).
+    - assert (HtU : In (TList e) U) by (apply Ht; left; reflexivity).
+      assert (Hte : forall u, In u (csub e) -> In u U) by (intros u Hu; apply Ht; right; exact Hu).
+      simpl. destruct cached.
+      + destruct (lookup_eqv (TList e) (cL s)) as [t0|] eqn:El.
+        * rewrite (hit_same _ _ _ (proj1 Hs) HtU El). exists s. split; [reflexivity|exact Hs].
+        * destruct (IHe true s Hs Hte) as [s1 [Hr Hs1]]. rewrite Hr.
+          exists (addL (TList e) s1). split; [reflexivity|apply inv_addL; assumption].
+      + destruct (IHe true s Hs Hte) as [s1 [Hr Hs1]]. rewrite Hr.
+        exists s1. split; [reflexivity|exact Hs1].
+    - assert (HtU : In (TMap e) U) by (apply Ht; left; reflexivity).
+      assert (Hte : forall u, In u (csub e) -> In u U) by (intros u Hu; apply Ht; right; exact Hu).
+      assert (Hfresh : forall s1, inv s1 -> inv {| cL := []; cD := TMap e :: cD s1 |}).
+      { intros s1 [_ H2]. split; simpl; [intros x []|].
+        intros x [Hx|Hx]; [subst; exact HtU|apply H2; exact Hx]. }
+      simpl. destruct cached.
+      + destruct (lookup_eqv (TMap e) (cL s)) as [t0|] eqn:El.
+        * rewrite (hit_same _ _ _ (proj1 Hs) HtU El). exists s. split; [reflexivity|exact Hs].
+        * destruct (lookup_eqv (TMap e) (cD s)) as [t0|] eqn:Ed.
+          -- rewrite (hit_same _ _ _ (proj2 Hs) HtU Ed). exists (addL (TMap e) s).
+             split; [reflexivity|apply inv_addL; assumption].
+          -- destruct (IHe false s Hs Hte) as [s1 [Hr Hs1]]. rewrite Hr.
+             exists (addL (TMap e) {| cL := []; cD := TMap e :: cD s1 |}).
+             split; [reflexivity|apply inv_addL; [exact HtU|apply Hfresh; exact Hs1]].
+      + destruct (lookup_eqv (TMap e) (cD s)) as [t0|] eqn:Ed.
+        * rewrite (hit_same _ _ _ (proj2 Hs) HtU Ed). exists s. split; [reflexivity|exact Hs].
+        * destruct (IHe false s Hs Hte) as [s1 [Hr Hs1]]. rewrite Hr.
+          exists {| cL := []; cD := TMap e :: cD s1 |}. split; [reflexivity|apply Hfresh; exact Hs1].
+  Qed.
+
+  Lemma run_free : forall rqs s,
+    inv s ->
+    (forall rq u, In rq rqs -> In u (csub (fst rq)) -> In u U) ->
+    run s rqs = map (fun rq => structure (fst rq) (snd rq)) rqs.
+  Proof.
+    induction rqs as [|rq rqs IH]; intros s Hs Hr; simpl.
     - reflexivity.
-    - unfold step. destruct (resolve_id (fst rq) c Hc) as [c' [Hres Hc']].
+    - unfold step. destruct (disp_id (fst rq) true s Hs) as [s' [Hres Hs']].
       { intros u Hu. apply (Hr rq u); [left; reflexivity|exact Hu]. }
-      rewrite Hres. f_equal. apply IH; [exact Hc'|].
+      rewrite Hres. f_equal. apply IH; [exact Hs'|].
       intros rq0 u Hin Hu. apply (Hr rq0 u); [right; exact Hin|exact Hu].
   Qed.
 End Inv.
@@ -62,7 +87,7 @@ Theorem history_free_partial : forall rqs, consistent (map fst rqs) -> history_f
 Proof.
   intros rqs Hcons. unfold history_free.
   apply (run_free (flat_map csub (map fst rqs)) Hcons).
-  - intros x [].
+  - split; intros x [].
   - intros rq u Hin Hu. apply in_flat_map. exists (fst rq). split; [apply in_map; exact Hin|exact Hu].
 Qed.
 
@@ -106,7 +131,7 @@ Lemma refuted_F14f :
   consistentb (map fst h_F14f) = false
   /\ structure (TList u_is) (JArr [JInt 5%Z]) = Ok (VList [VInt 5%Z])      (* in a fresh process *)
   /\ safe (TList u_is) (JArr [JInt 5%Z]) = true                            (* a separated union, lossless *)
-  /\ run [] h_F14f = [Ok (VList [VStr [53]]); Ok (VList [VStr [53]])]      (* after list[Union[str,int]] *)
+  /\ run empty_state h_F14f = [Ok (VList [VStr [53]]); Ok (VList [VStr [53]])]      (* after list[Union[str,int]] *)
   /\ ~ history_free h_F14f.
 Proof.
   repeat split; try (vm_compute; reflexivity).
